@@ -12,6 +12,10 @@ import threading as mt
 _local = mt.local()
 
 
+class Abort(BaseException):
+    """raised inside a parked thread when the controller is closed: the thread unwinds and ends"""
+
+
 class Worker(object):
 
     def __init__(self, ctl, name, fn):
@@ -26,6 +30,8 @@ class Worker(object):
         _local.worker = self
         self.go.acquire()            # wait for the first grant
         try:
+            if self.ctl.closing:
+                raise Abort()
             self.fn()
         except BaseException as e:   # noqa
             self.error = e
@@ -38,6 +44,8 @@ class Worker(object):
         self.ctl.back.release()      # hand control back
         self.go.acquire()            # wait for the next grant
         self.parked = None
+        if self.ctl.closing:
+            raise Abort()
 
 
 class Controller(object):
@@ -45,6 +53,7 @@ class Controller(object):
     def __init__(self):
         self.back    = mt.Semaphore(0)
         self.workers = {}
+        self.closing = False
 
     def spawn(self, name, fn, run_to_first_point=True):
         w = Worker(self, name, fn)
@@ -63,6 +72,15 @@ class Controller(object):
         if not self.back.acquire(timeout=20):
             raise RuntimeError('thread %s neither parked nor finished (deadlock?)' % name)
         return True
+
+    def close(self):
+        """end every thread that is still parked (long runs must not accumulate threads)"""
+        self.closing = True
+        for w in list(self.workers.values()):
+            if not w.done:
+                w.go.release()
+        for w in list(self.workers.values()):
+            w.thread.join(timeout=2)
 
     def where(self, name):
         w = self.workers.get(name)
